@@ -162,7 +162,13 @@ def run(ctx):
     cases, cid = [], 0
     for _ in range(700 * k):
         cid += 1
-        cases.append(c01.gen_case(rng, cid, ops=["cumsum"], nmax=6 if thorough else 5))
+        c_ = c01.gen_case(rng, cid, ops=["cumsum"], nmax=6 if thorough else 5)
+        if "dtype" not in c_["args"]["data"] and len(c_["args"]["axis"]) == 1 and rng.random() < 0.2:
+            # infinities among the data of a one-axis running sum (NaN is left out, and with it a second axis that would
+            # meet the NaN of inf - inf: xarray's running sum skips missing values of floating-point data, which the
+            # property does not speak about)
+            gen.sprinkle_specials(rng, c_["args"]["data"], nan=False)
+        cases.append(c_)
     for _ in range(150 * k):
         cid += 1
         cases.append(gen_inverse(rng, cid))
